@@ -74,6 +74,12 @@ CLAIMED = {
         note="Trusted base: world model; observation points matched by declared name / prototype+tile. Equal wrong behaviour of both builds is not a C10 matter.",
         ref="DESIGN.md §8 C10",
     ),
+    "C12": dict(
+        engine="factosim-exec",
+        text="Seeded twin co-simulation over interleavings: pairs (P, Q) from the scalar, gated-cell, latch and entity families with disjoint names, overlapping signal types and shifted user entities; a seeded order-preserving interleaving of their statements is compiled together and P, Q alone, each under its own fault plan; all three builds run in lock step while P's input history is driven with Q held and vice versa; P's (Q's) output anchors and entity conditions inside the combination must equal those of P (Q) alone at every settle point.",
+        note="Trusted base: world model; observation points matched by declared name / prototype+tile.",
+        ref="DESIGN.md §8 C12",
+    ),
 }
 
 NOT_YET = {}
